@@ -43,13 +43,112 @@ func rejObserve(packet []byte, capN int, emptyLen bool) (out []byte, panicked bo
 	return out, false
 }
 
+// ---- checksum regions of a reply, computed here only to SELECT inputs (never to judge them) -------------
+
+func rejWordSum(b []byte, zeroAt int) uint32 {
+	var s uint32
+	for i := 0; i < len(b); i += 2 {
+		hi, lo := b[i], byte(0)
+		if i+1 < len(b) {
+			lo = b[i+1]
+		}
+		if i == zeroAt {
+			hi, lo = 0, 0
+		}
+		s += uint32(hi)<<8 | uint32(lo)
+	}
+	return s
+}
+
+// rejRegionSums returns, for every checksummed region of a reply, the 32-bit one's-complement word sum with the
+// checksum field taken as zero (pseudo header included): IPv4 header, ICMPv4 message, TCP segment, ICMPv6 message.
+func rejRegionSums(out []byte) map[string]uint32 {
+	m := map[string]uint32{}
+	if len(out) < 20 {
+		return m
+	}
+	switch out[0] >> 4 {
+	case 4:
+		m["v4hdr"] = rejWordSum(out[:20], 10)
+		seg := out[20:]
+		if out[9] == 1 && len(seg) >= 8 {
+			m["v4icmp"] = rejWordSum(seg, 2)
+		} else if out[9] == 6 && len(seg) >= 20 {
+			m["v4tcp"] = rejWordSum(out[12:20], -1) + 6 + uint32(len(seg)) + rejWordSum(seg, 16)
+		}
+	case 6:
+		if len(out) < 48 {
+			return m
+		}
+		seg := out[40:]
+		ps := rejWordSum(out[8:40], -1) + uint32(out[6]) + uint32(len(seg))
+		if out[6] == 58 {
+			m["v6icmp"] = ps + rejWordSum(seg, 2)
+		} else if out[6] == 6 && len(seg) >= 20 {
+			m["v6tcp"] = ps + rejWordSum(seg, 16)
+		}
+	}
+	return m
+}
+
+// a sum whose first end-around fold still does not fit 16 bits: folding once is not enough
+func rejNeedsSecondCarry(s uint32) bool { return (s>>16)+(s&0xffff) > 0xffff }
+
+func rejSecondCarryRegions(out []byte) []string {
+	var r []string
+	for _, k := range []string{"v4hdr", "v4icmp", "v4tcp", "v6icmp", "v6tcp"} {
+		if s, ok := rejRegionSums(out)[k]; ok && rejNeedsSecondCarry(s) {
+			r = append(r, k)
+		}
+	}
+	return r
+}
+
+// rejSolveKnob sets the big-endian 16-bit word at packet[knob:knob+2] so that `region` of the reply needs the second
+// carry; the reply is obtained from the implementation under test, the predicate is recomputed afterwards. ok=false
+// if no value of the word achieves it.
+func rejSolveKnob(packet []byte, knob int, region string, capN int) ([]byte, bool) {
+	if knob+2 > len(packet) {
+		return nil, false
+	}
+	p := append([]byte{}, packet...)
+	p[knob], p[knob+1] = 0, 0
+	out, pan := rejObserve(p, capN, false)
+	if pan {
+		return nil, false
+	}
+	s, ok := rejRegionSums(out)[region]
+	if !ok {
+		return nil, false
+	}
+	for tweak := uint32(0); tweak < 4; tweak++ {
+		w := (0xffff - (s & 0xffff) - tweak) & 0xffff
+		p[knob], p[knob+1] = byte(w>>8), byte(w)
+		out2, pan2 := rejObserve(p, capN, false)
+		if pan2 {
+			continue
+		}
+		if s2, ok2 := rejRegionSums(out2)[region]; ok2 && rejNeedsSecondCarry(s2) {
+			return p, true
+		}
+	}
+	return nil, false
+}
+
 func runReject(c *hx.Ctx) {
 	cw := c.NewCaseWriter("From NV Require Import corr.Reject_corr.", "Reject_corr.case", "Reject_corr.check_case", 400)
-	replies := 0
+	replies, secondCarry := 0, 0
+	secondCarryBy := map[string]int{}
 	add := func(packet []byte, capN int, kind string) {
 		out, pan := rejObserve(packet, capN, (capN+len(packet))%2 == 0)
 		if len(out) > 0 {
 			replies++
+		}
+		if rs := rejSecondCarryRegions(out); len(rs) > 0 {
+			secondCarry++
+			for _, r := range rs {
+				secondCarryBy[r]++
+			}
 		}
 		ver := 0
 		if len(packet) > 0 {
@@ -94,6 +193,173 @@ func runReject(c *hx.Ctx) {
 			t = append(t, byte(i))
 		}
 		return t
+	}
+
+	// ---- carry-adversarial corpus: checksum regions whose 32-bit word sum needs a SECOND end-around carry ----
+	{
+		// the reported example: plain UDP 172.16.17.1 -> 172.16.17.165 (IPv4 header checksum of the reply)
+		ex := ippV4(5, 17, 0, ippUDP(4000, 53))
+		copy(ex[12:16], []byte{172, 16, 17, 1})
+		copy(ex[16:20], []byte{172, 16, 17, 165})
+		add(ex, 1100, "carry2-example")
+
+		fill := func(b []byte, pat int) {
+			for i := range b {
+				switch pat {
+				case 0:
+					b[i] = 0xff
+				case 1:
+					b[i] = 0xff - byte(i%2)
+				case 2:
+					b[i] = 0xff * byte((i+1)%2)
+				default:
+					b[i] = 0xff * byte(i%2)
+				}
+			}
+		}
+		mk4 := func(ihl int, proto byte, pat int, payload int) []byte {
+			p := make([]byte, ihl*4+payload)
+			fill(p, pat)
+			p[0] = 0x40 | byte(ihl)
+			p[6], p[7] = 0x40, 0
+			p[9] = proto
+			if proto == 6 && payload >= 20 {
+				p[ihl*4+12] = 0x5f
+				p[ihl*4+13] &^= 0x10 // ACK clear: the ack number is computed, with the 0xffffffff sequence number wrapping
+				if pat%2 == 1 {
+					p[ihl*4+13] |= 0x10
+				}
+			}
+			return p
+		}
+		mk6 := func(nh byte, pat int, payload int) []byte {
+			p := make([]byte, 40+payload)
+			fill(p, pat)
+			p[0] = 0x60 | (p[0] & 0x0f)
+			p[6] = nh
+			if nh == 6 && payload >= 20 {
+				p[40+12] = 0x5f
+				p[40+13] &^= 0x10
+				if pat%2 == 1 {
+					p[40+13] |= 0x10
+				}
+			}
+			if nh == 58 && payload > 0 {
+				p[40] = 128
+			}
+			return p
+		}
+		for pat := 0; pat < 4; pat++ { // 0xff-heavy everything (addresses, id, ports 0xffff, seq/ack, window, payload), every reply kind
+			for _, ihl := range []int{5, 6, 15} {
+				add(mk4(ihl, 17, pat, 8), 1100, "ff-heavy-v4-icmp")
+				add(mk4(ihl, 17, pat, 3), 1100, "ff-heavy-v4-icmp")
+				add(mk4(ihl, 1, pat, 8), 1100, "ff-heavy-v4-icmp")
+				add(mk4(ihl, 6, pat, 20), 1100, "ff-heavy-v4-tcp")
+				add(mk4(ihl, 6, pat, 31), 1100, "ff-heavy-v4-tcp")
+			}
+			for _, n := range []int{0, 1, 7, 8, 9, 100, 101, 958, 959, 960, 961, 1100} {
+				add(mk6(17, pat, n), 1100, "ff-heavy-v6-icmp")
+				add(mk6(58, pat, n), 1100, "ff-heavy-v6-icmp")
+			}
+			add(mk6(6, pat, 20), 1100, "ff-heavy-v6-tcp")
+			add(mk6(6, pat, 33), 1100, "ff-heavy-v6-tcp")
+		}
+
+		// IPv6 length sweep 0..1200 with an all-0xff payload (the quoted body is cut at 1000 bytes), two address pairs:
+		// every length whose ICMPv6 sum needs the second carry is kept, the others are sampled (all kept in the thorough tier)
+		stride := 40
+		if c.Tier == "thorough" {
+			stride = 1
+		}
+		for pair := 0; pair < 2; pair++ {
+			for n := 0; n <= 1200; n++ {
+				p := make([]byte, 40+n)
+				fill(p[40:], 0)
+				hdr := ippV6Fixed(17, n, ippSrc6, ippDst6)
+				if pair == 1 {
+					var s6, d6 [16]byte
+					fill(s6[:], 1)
+					fill(d6[:], 0)
+					d6[15] = 0xfe
+					hdr = ippV6Fixed(253, n, s6, d6)
+				}
+				copy(p, hdr)
+				out, _ := rejObserve(p, 1100, false)
+				if len(rejSecondCarryRegions(out)) > 0 {
+					add(p, 1100, "carry2-v6-ff-len")
+				} else if n%stride == pair {
+					// same length, the low word of the flow label (quoted once in the body) solved to need the second carry
+					if q, ok := rejSolveKnob(p, 2, "v6icmp", 1100); ok {
+						add(q, 1100, "carry2-v6-ff-len")
+					} else {
+						add(p, 1100, "v6-ff-len")
+					}
+				}
+			}
+		}
+
+		// directed search: random base packets, one 16-bit word of the input solved so that the named region of the
+		// reply needs the second carry (recomputed on the reply before the case is kept)
+		type knobSpec struct {
+			region string
+			build  func() ([]byte, int) // packet, offset of the free word
+		}
+		rnd4 := func(proto byte, pl []byte) []byte {
+			ihl := 5 + c.Intn(3)
+			p := ippV4(ihl, proto, 0x4000, pl)
+			copy(p[12:20], c.RandBytes(8))
+			copy(p[4:6], c.RandBytes(2))
+			return p
+		}
+		rnd6 := func(nh byte, pl []byte) []byte {
+			var s6, d6 [16]byte
+			copy(s6[:], c.RandBytes(16))
+			copy(d6[:], c.RandBytes(16))
+			return append(ippV6Fixed(nh, len(pl), s6, d6), pl...)
+		}
+		rndTCP := func() []byte {
+			return tcpSeg(byte(c.Intn(256)), 5, c.Intn(12), uint32(c.U64()), uint32(c.U64()))
+		}
+		specs := []knobSpec{
+			{"v4hdr", func() ([]byte, int) { return rnd4(17, ippUDP(uint16(c.Intn(65536)), 53)), 14 }},                 // low word of the source address
+			{"v4hdr", func() ([]byte, int) { return rnd4(6, rndTCP()), 18 }},                                           // low word of the destination address
+			{"v4icmp", func() ([]byte, int) { p := rnd4(17, ippUDP(uint16(c.Intn(65536)), 53)); return p, 4 }},         // IP id of the quoted header
+			{"v4icmp", func() ([]byte, int) { p := rnd4(17, ippUDP(1, 2)); return p, int(p[0]&0x0f)*4 + 6 }},           // last quoted payload word
+			{"v4tcp", func() ([]byte, int) { p := rnd4(6, rndTCP()); return p, int(p[0]&0x0f) * 4 }},                   // source port
+			{"v4tcp", func() ([]byte, int) { p := rnd4(6, rndTCP()); return p, 12 }},                                   // high word of the source address
+			{"v6icmp", func() ([]byte, int) { return rnd6(17, append(ippUDP(9, 9), c.RandBytes(c.Intn(64))...)), 46 }}, // UDP checksum word of the quoted packet
+			{"v6icmp", func() ([]byte, int) { return rnd6(58, ippICMP(128, 0, 1, 1)), 2 }},                             // low word of the flow label (quoted once)
+			{"v6tcp", func() ([]byte, int) { return rnd6(6, rndTCP()), 42 }},                                           // destination port
+			{"v6tcp", func() ([]byte, int) { return rnd6(6, rndTCP()), 38 }},                                           // low word of the destination address
+		}
+		perSpec := 6
+		if c.Tier == "thorough" {
+			perSpec = 60
+		}
+		for _, sp := range specs {
+			found := 0
+			for try := 0; try < 40*perSpec && found < perSpec; try++ {
+				base, knob := sp.build()
+				if q, ok := rejSolveKnob(base, knob, sp.region, 1100); ok {
+					add(q, 1100, "carry2-"+sp.region)
+					found++
+				}
+			}
+		}
+		// undirected: a few thousand random address pairs, those whose IPv4 header / TCP pseudo header sum needs the second
+		// carry by themselves are kept (about 1 in 20000; the count shows up in the distribution as carry2-random)
+		for try := 0; try < 4000; try++ {
+			var p []byte
+			if try%2 == 0 {
+				p = rnd4(17, ippUDP(uint16(c.Intn(65536)), uint16(c.Intn(65536))))
+			} else {
+				p = rnd4(6, rndTCP())
+			}
+			out, _ := rejObserve(p, 1100, false)
+			if len(rejSecondCarryRegions(out)) > 0 {
+				add(p, 1100, "carry2-random")
+			}
+		}
 	}
 
 	// ---- sweeps ----
@@ -271,8 +537,19 @@ func runReject(c *hx.Ctx) {
 			p = p[:c.Intn(len(p)+1)]
 			kind += "-truncated"
 		}
+		if c.Chance(0.12) && len(p) > 0 { // 0xff-heavy tail: pushes the quoted body / segment sums towards the carry edges
+			from := 20 + c.Intn(30)
+			for j := from; j < len(p); j++ {
+				if c.Chance(0.9) {
+					p[j] = 0xff - byte(c.Intn(2))
+				}
+			}
+			kind += "-ff"
+		}
 		add(p, capN, kind)
 	}
 	cw.Meta("replies", replies)
-	cw.Close("sweeps (every TCP flag byte, data offset, ICMP/ICMPv6 type, protocol, IHL, fragment bit pattern, chains of 0..12 headers, capacities around every threshold and every capacity 0..1100 on small packets, truncation at every offset) then random: 40% IPv4 (options, TCP/UDP/ICMP/other, fragments), 45% IPv6 (chains, fragments, TCP/UDP/ICMPv6/other), 15% unstructured, 15% of all truncated; capacities 0..1100; non-trivial = a reply was produced; distinct by literal")
+	cw.Meta("second_carry_cases", secondCarry)
+	cw.Meta("second_carry_by_region", secondCarryBy)
+	cw.Close("carry-adversarial corpus (0xff-heavy packets for every reply kind, IPv6 all-0xff length sweep 0..1200, inputs solved so that the IPv4 header / ICMP / ICMPv6 / TCP checksum sum of the reply needs a second end-around carry - counted in second_carry_cases), sweeps (every TCP flag byte, data offset, ICMP/ICMPv6 type, protocol, IHL, fragment bit pattern, chains of 0..12 headers, capacities around every threshold and every capacity 0..1100 on small packets, truncation at every offset) then random: 40% IPv4 (options, TCP/UDP/ICMP/other, fragments), 45% IPv6 (chains, fragments, TCP/UDP/ICMPv6/other), 15% unstructured, 15% of all truncated; capacities 0..1100; non-trivial = a reply was produced; distinct by literal")
 }
